@@ -366,6 +366,10 @@ pub struct LongSeq {
     pub ops: Vec<(u8, u8, u8)>,
 }
 
+pub fn run_long_case(c: &LongSeq, obs: &mut Obs) -> Result<(), String> {
+    run_long(c, obs)
+}
+
 fn run_long(c: &LongSeq, obs: &mut Obs) -> Result<(), String> {
     let s = slots16();
     let mut m = SlotMap::new();
